@@ -142,16 +142,24 @@ type wgState struct {
 	vc      []int
 }
 
+type mutexState struct {
+	writer  bool
+	readers int
+	waiters []*G
+	vc      []int
+}
+
 type Sched struct {
-	lifo bool // serve the run queue last-in-first-out (see verifSchedChoice)
-	wgs  map[*Value]*wgState
-	in   *Interp
-	cur  *G
-	main *G
-	runq []*G
-	all  []*G
-	wg   sync.WaitGroup
-	fail interface{} // abort/panic raised in a non-main goroutine, to deliver to main
+	mutexes map[*Value]*mutexState
+	lifo    bool // serve the run queue last-in-first-out (see verifSchedChoice)
+	wgs     map[*Value]*wgState
+	in      *Interp
+	cur     *G
+	main    *G
+	runq    []*G
+	all     []*G
+	wg      sync.WaitGroup
+	fail    interface{} // abort/panic raised in a non-main goroutine, to deliver to main
 }
 
 func newSched(in *Interp) *Sched {
@@ -254,6 +262,59 @@ func (s *Sched) pick() *G {
 	g := s.runq[i]
 	s.runq = append(s.runq[:i:i], s.runq[i+1:]...)
 	return g
+}
+
+func (s *Sched) mutexOf(p *Value) *mutexState {
+	if p == nil {
+		s.in.rtPanic("invalid memory address or nil pointer dereference")
+	}
+	if s.mutexes == nil {
+		s.mutexes = map[*Value]*mutexState{}
+	}
+	m := s.mutexes[p]
+	if m == nil {
+		m = &mutexState{}
+		s.mutexes[p] = m
+	}
+	return m
+}
+
+// mutexLock acquires the (RW)mutex for writing or reading, parking the goroutine while it is not
+// available; Unlock happens-before the Lock it enables.
+func (s *Sched) mutexLock(p *Value, write bool) {
+	m := s.mutexOf(p)
+	for m.writer || (write && m.readers > 0) {
+		m.waiters = append(m.waiters, s.cur)
+		s.block() // (deadlock if nobody is left to unlock)
+	}
+	if write {
+		m.writer = true
+	} else {
+		m.readers++
+	}
+	vcJoin(&s.cur.vc, m.vc)
+}
+
+func (s *Sched) mutexUnlock(p *Value, write bool) {
+	m := s.mutexOf(p)
+	if write {
+		if !m.writer {
+			s.in.rtPanic("sync: unlock of unlocked mutex")
+		}
+		m.writer = false
+	} else {
+		if m.readers == 0 {
+			s.in.rtPanic("sync: RUnlock of unlocked RWMutex")
+		}
+		m.readers--
+	}
+	vcTick(&s.cur.vc, s.cur.id)
+	vcJoin(&m.vc, s.cur.vc)
+	vcTick(&s.cur.vc, s.cur.id)
+	for _, g := range m.waiters {
+		s.makeRunnable(g)
+	}
+	m.waiters = nil
 }
 
 func (s *Sched) wgOf(p *Value) *wgState {
